@@ -416,3 +416,71 @@ def replay(run, doc):
     print("observed now:", r.get("beats", r))
     print("expected    :", want)
     return 0 if r.get("beats") == want else 1
+
+
+# =====================================================================================================================
+# (3) the oscillator classes on their Coq model (Pat/Osc.v): they are not constructors of the deep embedding
+# =====================================================================================================================
+OSC_HEADER = HEADER + """From Isobar Require Import Pat.Osc.
+From Coq Require Import QArith.
+Open Scope Z_scope.
+Definition oscagrees (sh : shape) (l m x : arg) (n : nat) (expected : list (outcome val)) : bool := list_eqb obs_eqb (osc_trace sh l m x n) expected.
+Definition oscunknown (sh : shape) (l m x : arg) (n : nat) : bool := existsb unknown (osc_trace sh l m x n).
+"""
+
+
+def osc_arg(x):
+    if isinstance(x, E):
+        if x.cls == "Probe":
+            return osc_arg(x.args[0])
+        if x.cls == "PConstant" and not is_pat(x.args[0]):
+            return "(AP (PConstant %s))" % val_coq(x.args[0])
+        if x.cls == "PRef" and is_pat(x.args[0]):
+            return "(AP (PRef %s))" % osc_arg(x.args[0])
+        if x.cls == "PSequence" and isinstance(x.args[0], list) and not any(is_pat(v) or isinstance(v, (list, tuple, dict)) for v in x.args[0]):
+            rep = x.args[1] if len(x.args) > 1 else SYS_MAXSIZE
+            if isinstance(rep, int) and not isinstance(rep, bool):
+                return "(AP (PSequence (AL %s) (AV (VInt %s)) 0 0))" % (lst(["(AV %s)" % val_coq(v) for v in x.args[0]]), zlit(rep))
+        raise Unrepresentable("oscillator operand %s" % to_source(x))
+    if is_pat(x) or isinstance(x, (list, tuple, dict)):
+        raise Unrepresentable("oscillator operand")
+    return "(AV %s)" % val_coq(x)
+
+
+def osc_model_checks(run, insts, report):
+    terms, where = [], []
+    for inst in insts:
+        cls = inst["pair"][0]
+        if cls not in ("PTri", "PSaw"):
+            continue
+        for j in [inst["scalar"], inst["varying"], inst["nested"]] + [j for _, j in inst["forms"]]:
+            if j.res["status"] or len(j.res["obs"]) < 2 or len(j.expr.args) != 3:
+                continue
+            try:
+                l, m, x = [osc_arg(a) for a in j.expr.args]
+                exp = lst([obs_coq(o) for o in j.res["obs"][1:]])
+            except Unrepresentable:
+                run.discard("oscillator model: operand form without an image")
+                continue
+            terms.append(("Tri" if cls == "PTri" else "Saw", l, m, x, len(j.res["obs"]) - 1, exp))
+            where.append((inst, j))
+    bad = run.coq_failing(OSC_HEADER, ["oscagrees %s %s %s %s %d%%nat %s" % t for t in terms], chunk=60)
+    if bad:
+        unk = set(run.coq_failing(OSC_HEADER, ["negb (oscunknown %s %s %s %s %d%%nat)" % terms[k][:5] for k in bad], chunk=60))
+        keep = []
+        for kk, k in enumerate(bad):
+            if kk in unk:
+                run.discard("oscillator model: inexact float arithmetic (period not a power of two / non-dyadic bounds)")
+            else:
+                keep.append(k)
+        bad = keep
+    run.cov["oscillator_traces_validated_against_model"] = len(terms) - len(bad) - run.cov["discarded"].get(
+        "oscillator model: inexact float arithmetic (period not a power of two / non-dyadic bounds)", 0)
+    run.cov["traces_validated_against_impl"] += max(0, run.cov["oscillator_traces_validated_against_model"])
+    for k in bad[:2]:
+        inst, j = where[k]
+        cls, param = inst["pair"]
+        report({"kind": "correspondence", "class": cls, "param": param, "what": "oscillator-model"}, {
+            "case": {"expr": to_source(j.expr), "n": j.n, "seed": inst["seed"]},
+            "expected": "the Coq model Pat/Osc.v: %s" % run.coq_eval(OSC_HEADER, "osc_trace %s %s %s %s %d%%nat" % terms[k][:5])[:1200],
+            "observed": pretty_list(j.res["obs"]), "python": j.python()})
